@@ -2,7 +2,7 @@
 """keep_seed.py <Cxx> <mN> <new-id> <breaks> <needs> <caught-by> — store a confirmed seeded change under /verif/seeded/<new-id>/"""
 import sys, os, shutil, json, subprocess
 cid, m, nid, breaks, needs, caught = sys.argv[1:7]
-src = '/tmp/seed/%s/%s' % (cid, m)
+src = '%s/%s/%s' % (os.environ.get('SEEDBASE', '/tmp/seed'), cid, m)
 dst = '/verif/seeded/%s' % nid
 if os.path.exists(dst):
     shutil.rmtree(dst)
